@@ -92,8 +92,9 @@ func allProps() []PropSpec {
 			Harnesses: []HarnessSpec{
 				{Func: "ZZ_C14_H1", Pkg: "pkg/protocol/http1", Quick: map[string]int{"L": 6, "C": 2, "S": 6, "R": 3}, Thorough: map[string]int{"L": 9, "C": 2, "S": 7, "R": 4}, Covers: []string{"reached-assert", "stopped-mid-body", "read-to-eof"}, MaxSteps: 4000000},
 				{Func: "ZZ_C14_H2", Pkg: "pkg/protocol/http1", Covers: []string{"reached-assert", "both-handled"}, Note: "pooled bodyStream reuse across two connections after a failed release (sync.Pool modelled LIFO)"},
+				{Func: "ZZ_C14_BIG", Pkg: "pkg/protocol/http1", Covers: []string{"reached-assert", "read-beyond-prefetch"}, Unwind: 40000, MaxSteps: 8000000, Note: "8 KiB regime: bodies of 8193..8201 and 9000 bytes, read buffers 16 B .. 16 KiB"},
 			},
-			Assumptions: []string{"transport: real standard.Conn over a harness net.Conn, delivered whole or byte-at-a-time; netpoll outside", "small bodies (<= 9 bytes) with small prefetch limits exercise the same code paths as the 8 KiB regime; the 8 KiB regime itself is not run", "read-buffer sizes from {0,1,3,16}"},
+			Assumptions: []string{"transport: real standard.Conn over a harness net.Conn, delivered whole or byte-at-a-time; netpoll outside", "small bodies (<= 9 bytes) with small prefetch limits plus the 8 KiB regime (ZZ_C14_BIG) with concrete pattern bodies", "read-buffer sizes from {0,1,3,16}"},
 		},
 		{
 			ID: "C18",
